@@ -19,6 +19,9 @@ use_repo()
 
 NAMES = ["x", "y", "z", "c", "d", "k", "xs", "ys"]
 ALT_NAMES = ["总计", "naïve", "z", "c_1", "Δ", "k", "xs", "_ys"]     # same indices, non-ASCII / underscore spellings
+# same indices again: student variables that happen to be NAMED like builtins TIFA knows (a very common novice habit:
+# sum, max, list, id, ...) - they are ordinary variables once the program assigns them
+BUILTIN_LIKE_NAMES = ["sum", "max", "list", "id", "len", "input", "str", "min"]
 LOOP_KINDS = ("wh", "for")
 
 FLOW_LABELS = {
@@ -42,8 +45,11 @@ class Style:
         self.eol = "\n"
         self.filler = False
         if rng is not None:
-            if rng.random() < 0.12:
+            r = rng.random()
+            if r < 0.12:
                 self.names = ALT_NAMES
+            elif r < 0.24:
+                self.names = BUILTIN_LIKE_NAMES
             k = rng.random()
             if k < 0.06:
                 self.eol = "\r\n"
@@ -155,6 +161,22 @@ def render(block, style=None, preamble=()):
 
     nb = go(block, "")
     return style.eol.join(lines) + style.eol, nb
+
+
+def render_safe(block, style):
+    """render(), but the builtin-like spelling (sum, max, list, ...) is only used for programs in which no read can
+    precede the first assignment of its variable on any execution: reading `max` before assigning it is a read of
+    the BUILTIN in real Python (no NameError), so such programs say nothing about uninitialised reads."""
+    code, nb = render(block, style)
+    if style.names is BUILTIN_LIKE_NAMES:
+        try:
+            risky = count_paths(nb) > PATH_CAP or bool(unset_read_sites(nb))
+        except Exception:  # noqa: too many paths etc.
+            risky = True
+        if risky:
+            style.names = NAMES
+            code, nb = render(block, style)
+    return code, nb
 
 
 def wire(nb):
